@@ -16,8 +16,8 @@ impl TryFrom<&[u8]> for RegisterRequest {
 
     fn try_from(data: &[u8]) -> Result<Self, Self::Error> {
         Ok(Self {
-            challenge: data[..32].try_into()?,
-            application: data[32..].try_into()?,
+            challenge: data.get(..32).unwrap_or_default().try_into()?,
+            application: data.get(32..).unwrap_or_default().try_into()?,
         })
     }
 }
